@@ -69,9 +69,13 @@ func genE2E(r *Rng, n int, tier string) []Case {
 		if src == "web2" {
 			seqPct = 15 // sequential mode fetches file tails as single-piece ranges first, which hides range bookkeeping
 		}
+		pre := "-"
+		if r.Chance(15) {
+			pre = r.Pick2("long", "short", "junk") // files of the torrent already exist in the download directory
+		}
 		cases = append(cases, Case{ID: fmt.Sprintf("e2e-%d", i+1), Ops: []string{
-			fmt.Sprintf("e2e pl=%d files=%s seq=%s enc=%s magnet=%s src=%s seed=%d", l.pl, l.filesArg(), b01(r.Chance(seqPct)),
-				r.Pick2("plain", "prefer", "force"), b01(magnet), src, r.Intn(1<<30))}})
+			fmt.Sprintf("e2e pl=%d files=%s seq=%s enc=%s magnet=%s src=%s seed=%d pre=%s", l.pl, l.filesArg(), b01(r.Chance(seqPct)),
+				r.Pick2("plain", "prefer", "force"), b01(magnet), src, r.Intn(1<<30), pre)}})
 	}
 	return cases
 }
@@ -227,6 +231,27 @@ func e2eOne(m map[string]string) string {
 		}
 		if st.Stats().Status != torrent.Seeding {
 			return "done=0 disk=- enc=- err=seeder-not-seeding:" + strings.ReplaceAll(st.Stats().Status.String(), " ", "")
+		}
+	}
+	if pre := m["pre"]; pre == "long" || pre == "short" || pre == "junk" {
+		// older, longer or shorter editions of the files are already in the leecher's download directory
+		off := 0
+		for i, ln := range lens {
+			if !pads[i] {
+				var b []byte
+				switch pre {
+				case "long":
+					b = append(append([]byte{}, content[off:off+ln]...), bytes.Repeat([]byte{0xEE}, 1000)...)
+				case "short":
+					b = append([]byte{}, content[off:off+ln/2]...)
+				default:
+					b = bytes.Repeat([]byte{0x5A}, ln)
+				}
+				p := filepath.Join(root, "leech", "data", fileName(i))
+				_ = os.MkdirAll(filepath.Dir(p), 0o755)
+				_ = os.WriteFile(p, b, 0o644)
+			}
+			off += ln
 		}
 	}
 	ls, err := torrent.NewSession(lcfg)
